@@ -1,6 +1,7 @@
 import RimuProofs.Lemmas.Run
 import RimuProofs.Props.C17
 import RimuProofs.Facts
+import RimuProofs.Lemmas.SafeBlock
 
 /-!
 # C10  List markers determine list nesting exactly
@@ -12,7 +13,11 @@ Proved for the model:
 * **the open-marker decision** (`item_continues_or_nests`): after an item, a next item whose id is on the stack of open
   lists is handed back to the enclosing loops (it continues or returns to that list), any other id opens a child list
   inside the current item - the two branches of the model's item loop;
-* **two blank lines (or end of input) end the list** (`two_blank_lines_end_item`).
+* **two blank lines (or end of input) end the list** (`two_blank_lines_end_item`);
+* **the stack of open markers is balanced** (`list_stack_is_balanced`, `list_leaves_no_open_marker`): rendering a list -
+  whatever it contains: child lists, attached blocks, containers with lists of their own, any nesting - returns with
+  the stack of open list ids exactly as it found it (and `ids.pop()` never meets an empty stack: C01); a whole
+  `lists.render` leaves it empty.
 The complete marker-machine-equals-tree-specification theorem is not proved; list trees (depth 4, mixed kinds,
 attached blocks, blank lines, following block) are checked against the tree the generator built.
 -/
@@ -99,6 +104,21 @@ theorem item_continues_or_nests (rec : Rec) (env : Env) (fuel : Nat) (r r1 r2 : 
     cases (renderList rec env fuel n r2 al1).run s1 with
     | error e => rfl
     | ok v => obtain ⟨⟨nx, r3, al3⟩, s3⟩ := v; rfl
+
+/-- **The stack of open list ids is balanced**: a list rendered from a session that satisfies the invariant returns
+    with the stack as it was, for every item, reader, fuel and `compile` oracle. -/
+theorem list_stack_is_balanced (env : Env) (n fuel : Nat) (item : ItemInfo) (hit : item.Ok) (r : Reader) (w : Writer)
+    (s s' : Session) (hI : Inv s) (res : Option ItemInfo × Reader × Writer)
+    (hr : (renderList (mkRec env n) env fuel item r w).run s = .ok (res, s')) : s'.listIds = s.listIds := by
+  have h := (lists_ok (mkRec env n) env (mkRec_ok env n).1 (mkRec_ok env n).2 (mkRec_spec env n).1 fuel).1
+    item r w s.listIds hit s hI rfl
+  exact (wpE_ok h hr).2.2
+
+/-- a complete `lists.render` leaves no marker open -/
+theorem list_leaves_no_open_marker (env : Env) (n fuel : Nat) (item : ItemInfo) (hit : item.Ok) (r : Reader) (w : Writer)
+    (s s' : Session) (hI : Inv s) (hs : s.listIds = []) (res : Option ItemInfo × Reader × Writer)
+    (hr : (renderList (mkRec env n) env fuel item r w).run s = .ok (res, s')) : s'.listIds = [] := by
+  rw [list_stack_is_balanced env n fuel item hit r w s s' hI res hr, hs]
 
 /-- Concrete trees (kernel evaluation): continue, nest, return to a grandparent, attached block, one blank line
     continues, two end the list. -/
